@@ -407,7 +407,10 @@ def initiator_cases():
                 w.step(('deliver', retry[0].id))
                 kind2, cookie2 = classify_reply(w)
                 if kind2 != 'cookie' or cookie2 == cookie:
-                    raise HarnessError('expected a second, different COOKIE challenge, got %s' % kind2)
+                    v.append(('second-challenge:stale-cookie-not-answered-with-a-new-cookie', 'a request carrying a cookie made '
+                              'with the previous secret was answered with %s, not with a new COOKIE challenge' % kind2))
+                    yield ('initiator:%s' % mode, v, 'failed')
+                    continue
                 w.step(('deliver', w.net[0].id))
                 retry2 = [d for d in w.step_emitted if d.sender == 'A']
                 want2 = variant(first.data, cookies=[cookie2], strip_cookies=True)
@@ -552,6 +555,31 @@ def same_pass_cases(measured):
             yield ('same-pass:%d-below:%d-requests' % (below, m), v, '+'.join(replies))
 
 
+def aged_half_open_cases(measured):
+    """half-open IKE_SAs that have been sitting in the table for a long time (longer than the liveness interval of the
+    connection, longer than any retransmission budget) are half-open all the same: as long as the responder holds as many
+    of them as it takes, a request without cookie is answered with a cookie only"""
+    for age in (5, 59, 61, 75, 130):
+        w, req = fresh()
+        fill_half_open(w, req, measured + 1)
+        b = w.endpoints['B']
+        mine = {bytes(x.my_spi) for x in b.controller.ike_sas}
+        for _ in range(age):
+            w.step(('tick', 1.0))
+            w.net[:] = []
+        if not b.alive:
+            yield ('aged:%d' % age, [('aged:daemon-died', 'B died while half-open IKE_SAs aged: %r' % (b.dead_reason[:2],))], 'died')
+            continue
+        held = sum(1 for x in b.controller.ike_sas if bytes(x.my_spi) in mine)
+        kind, cookie, dh, grew, _ = probe(w, req)
+        v = []
+        if held >= measured and kind != 'cookie':
+            v.append(('aged:no-cookie-demanded', '%d never-authenticated IKE_SAs have been held for %d s (states %s); a request '
+                      'without cookie is answered with %s (cookies start at %d)' % (
+                          held, age, sorted({x.state.name for x in b.controller.ike_sas if bytes(x.my_spi) in mine}), kind, measured)))
+        yield ('aged:%d' % age, v, '%s:held=%d' % (kind, held))
+
+
 def replay(path):
     doc = jdec(json.load(open(path)))
     want = doc['label']
@@ -610,6 +638,8 @@ def main():
                                                                    'cookie is demanded: %s' % sorted(meas.items()))], 'differs'))
         if fam == 4 and meas:
             runs += [('v4:%s' % l, v, o) for l, v, o in same_pass_cases(min(meas.values()))]
+            PRE['established'], PRE['initiated'] = False, 0
+            runs += [('v4:%s' % l, v, o) for l, v, o in aged_half_open_cases(min(meas.values()))]
         runs += [('v%d:%s' % (fam, l), v, o) for l, v, o in initiator_cases()]
         runs += [('v%d:%s' % (fam, l), v, o) for l, v, o in foreign_responder_cases()]
     FAMILY['v'] = 4
